@@ -35,7 +35,10 @@ type C09Op struct {
 type C09Script struct {
 	// Decode: start from the decoded form of this canonical section instead of CreateSCTE35()
 	Decode *ref.Section `json:"decode,omitempty"`
-	Ops    []C09Op      `json:"ops"`
+	// LegacyLen: the section handed to the decoder carries splice_command_length 0xFFF (the
+	// "not specified" value older encoders wrote); re-encoding writes the real length
+	LegacyLen bool    `json:"legacy_command_length,omitempty"`
+	Ops       []C09Op `json:"ops"`
 }
 
 type c09 struct{}
@@ -61,7 +64,7 @@ func (c09) Info() core.Info {
 			"sections with alignment stuffing are not 'canonical': re-encoding their decoded form need not reproduce the stuffing",
 			"on a decoded signal with foreign descriptors the descriptor list is not replaced (where foreign descriptors would go is not defined); their order relative to segmentation descriptors must be kept",
 		},
-		RequiredProbes: []string{"encoded", "decoded_again", "reencoded_identical", "start_from_decoded", "flag_cleared_after_set", "value_beyond_field_width", "insert_cancelled", "insert_component_mode", "insert_with_duration", "descriptor_cancelled", "descriptor_components", "mid_set", "upid_set", "sub_segments", "command_replaced", "descriptors_replaced", "foreign_descriptor", "pts_adjustment_nonzero", "pts_adjustment_wraps", "data_unchanged_between_encodings", "no_effect_call", "three_descriptors", "component_edited_through_getter_object", "upid_of_a_mid_edited_through_getter_object", "sub_segment_flag_on_type_0x38_or_0x3A", "command_of_256_bytes_or_more", "pts_adjustment_on_a_command_without_time"},
+		RequiredProbes: []string{"encoded", "decoded_again", "reencoded_identical", "start_from_decoded", "flag_cleared_after_set", "value_beyond_field_width", "insert_cancelled", "insert_component_mode", "insert_with_duration", "descriptor_cancelled", "descriptor_components", "mid_set", "upid_set", "sub_segments", "command_replaced", "descriptors_replaced", "foreign_descriptor", "pts_adjustment_nonzero", "pts_adjustment_wraps", "data_unchanged_between_encodings", "no_effect_call", "three_descriptors", "component_edited_through_getter_object", "upid_of_a_mid_edited_through_getter_object", "sub_segment_flag_on_type_0x38_or_0x3A", "command_of_256_bytes_or_more", "pts_adjustment_on_a_command_without_time", "decoded_section_with_command_length_0xFFF"},
 	}
 }
 
@@ -192,6 +195,7 @@ func (c09) Gen(r *core.Rand, tier string) interface{} {
 	descs := []string{"d0", "d1", "d2"}
 	if r.Chance(2, 5) {
 		s.Decode = c09GenSection(r)
+		s.LegacyLen = r.Chance(1, 6)
 		cmds = append(cmds, "cS")
 		k := 0
 		for _, it := range s.Decode.Items {
@@ -478,9 +482,18 @@ func (c09) Exec(script interface{}, c *core.Ctx) {
 		c.Probe("start_from_decoded")
 		sec := *s.Decode
 		sec.Stuffing = 0
-		enc, _ := sec.Bytes()
+		enc, _ := sec.Bytes() // the canonical form
+		input := enc          // what the decoder is given
+		if s.LegacyLen {
+			input = append([]byte(nil), enc...)
+			input[11] |= 0x0F
+			input[12] = 0xFF
+			crc := ref.CRC32(input[:len(input)-4])
+			input[len(input)-4], input[len(input)-3], input[len(input)-2], input[len(input)-1] = byte(crc>>24), byte(crc>>16), byte(crc>>8), byte(crc)
+			c.Probe("decoded_section_with_command_length_0xFFF")
+		}
 		var err error
-		if !c.Call("scte35.NewSCTE35(initial)", func() { sc, err = scte35.NewSCTE35(append([]byte{0}, enc...)) }) {
+		if !c.Call("scte35.NewSCTE35(initial)", func() { sc, err = scte35.NewSCTE35(append([]byte{0}, input...)) }) {
 			return
 		}
 		if err != nil {
@@ -508,7 +521,7 @@ func (c09) Exec(script interface{}, c *core.Ctx) {
 		var terr error
 		var re []byte
 		if !c.Call("scte35.NewSCTE35 + UpdateData(untouched)", func() {
-			twin, terr = scte35.NewSCTE35(append([]byte{0}, enc...))
+			twin, terr = scte35.NewSCTE35(append([]byte{0}, input...))
 			if terr == nil {
 				re = twin.UpdateData()
 			}
@@ -545,7 +558,7 @@ func (c09) Exec(script interface{}, c *core.Ctx) {
 			c.Fail("decode_canonical", "initial_descriptor_count", len(ds), k)
 			return
 		}
-		lastEnc, haveEnc = enc, true
+		lastEnc, haveEnc = input, true
 	}
 
 	// a bystander: another signal alive in the same process, with a command and a descriptor of
@@ -1651,6 +1664,11 @@ func (c09) Shrink(script interface{}) []interface{} {
 		for _, i := range keep {
 			n.Ops = append(n.Ops, s.Ops[i])
 		}
+		out = append(out, n)
+	}
+	if s.LegacyLen {
+		n := cp()
+		n.LegacyLen = false
 		out = append(out, n)
 	}
 	if s.Decode != nil {
